@@ -63,6 +63,16 @@ fn c14_format_unit_text() {
     assert!(text("1.46 KiB", true) == "1.46 K", "OBL C14.format.text: s shortens KiB to K");
     assert!(text("1.68 MB", true) == "1.68 M" && text("3 GB", true) == "3 G" && text("3 GiB", true) == "3 G", "OBL C14.format.text: s shortens MB / GB / GiB");
 }
+#[kani::proof]
+#[kani::unwind(12)]
+fn c14_format_unit_text_large() {
+    kani::cover!(true);
+    assert!(text("3 TB", true) == "3 T" && text("2.50 TiB", true) == "2.50 T", "OBL C14.format.text.large: s shortens TB / TiB");
+    assert!(text("1 PB", true) == "1 P" && text("1 PiB", true) == "1 P", "OBL C14.format.text.large: s shortens PB / PiB");
+    assert!(text("1 EB", true) == "1 E" && text("1 EiB", true) == "1 E", "OBL C14.format.text.large: s shortens EB / EiB");
+    assert!(text("3 TB", false) == "3 TB" && text("2.50 TiB", false) == "2.50 TiB" && text("1.68 MB", false) == "1.68 MB", "OBL C14.format.text.large: without s the unit text is kept");
+    assert!(text("1678kB", false) == "1678KB" && text("1678kB", true) == "1678K", "OBL C14.format.text.large: no space between value and unit");
+}
 // GRID-BEGIN (generated by tools/gen_sizefmt_grid.py)
 #[kani::proof]
 #[kani::unwind(10)]
